@@ -209,6 +209,20 @@ Proof. exact handoff_unchecked_artifact_refuted. Qed.
 Print Assumptions c10_handoff_unchecked_artifact_unfixed_refuted.
 
 (* ---- non-vacuity ---- *)
+(* the HTTP layer (server.rs): the response is 201 exactly for the calls the store serves; every rejected call
+   answers 400 (both selectors, from_seq out of range, no summary), 404 (no such thread / message / artifact)
+   or 500 (the bundle could not be written) - and, by c10_branch_error_writes_nothing /
+   c10_handoff_error_writes_nothing, has written nothing *)
+Theorem c10_http_created_iff_served : forall r : result resp,
+  http_status r = 201 <-> exists x, r = Ok x.
+Proof. exact http_status_created_iff. Qed.
+Print Assumptions c10_http_created_iff_served.
+
+Theorem c10_http_status_classes : forall r : result resp,
+  http_status r = 201 \/ http_status r = 400 \/ http_status r = 404 \/ http_status r = 500.
+Proof. exact http_status_classes. Qed.
+Print Assumptions c10_http_status_classes.
+
 Example c10_demo_hypotheses :
   Valid demo_log /\ Consecutive demo_parent /\ cstream (f_child demo_fresh) demo_log = []
   /\ cstream 0 demo_log = demo_parent.
